@@ -450,8 +450,11 @@ def part_builtin_matrix(ctx, tmp):
         b = M.build(tpl, h, sh)
         if b is not None:
             built.append((tpl, h, sh, b))
-    if ctx.tier == "quick":
-        # seeded sample, stratified so that every builtin and every shape occurs
+    n_all = len(built)
+    target = 300 if ctx.tier == "quick" else (n_all if os.environ.get("VERIF_C20_FULL_MATRIX") == "1" else 8000)
+    if target < n_all:
+        # seeded sample, stratified so that every builtin and every shape occurs (thorough: 8000 of the ~20k programs to stay
+        # inside the tier budget; VERIF_C20_FULL_MATRIX=1 runs the whole matrix, ~25 min on 3 cores)
         by_b, by_s = collections.defaultdict(list), collections.defaultdict(list)
         for c in built:
             by_b[c[0]["builtin"]].append(c)
@@ -461,8 +464,9 @@ def part_builtin_matrix(ctx, tmp):
             b = M.build(tpl, h, sh)
             if b is not None:
                 pick.append((tpl, h, sh, b))
-        pick += rnd.sample(built, max(0, 300 - len(pick)))
+        pick += rnd.sample(built, max(0, target - len(pick)))
         built = pick
+    ctx.corr["matrix_programs_total"] = n_all
     items = []
     for i, (tpl, h, sh, b) in enumerate(built):
         items.append({"id": f"bm{i}", "src": b["src"], "how": f"builtin-matrix:{tpl['builtin']}:{sh}", "base": b["call"][:60],
